@@ -77,6 +77,15 @@ CLAIMED = {
             'sample-and-hold definitions. Known findings F5, F6, F23.',
             'DESIGN.md 4/C09', 'NumPy element-wise semantics; row projection for 2-D history arrays; step mode only',
             'contract-based deductive verification: symbolic execution over quantified array contents + SMT'),
+    'C10': ('proof',
+            'DAE.request_address is proved to return, for both layouts, exactly the block address map c+i*nd+k / c+i+k*nv '
+            'with the counter advanced by nd*nv; lemma L1 proves these maps are bijections onto [c, c+nd*nv); '
+            'System.set_address gives variable #idx block #idx (x and y), counters monotone, phase-3 blocks consecutive; '
+            '_set_xy_name writes at slot a[j] the name built from the variable and idx[j]; ExtVar/ExtParam.link_external and '
+            'Model.get follow uid(indexer[j]).',
+            'DESIGN.md 4/C10', 'abstract collections (one arbitrary element per loop body); idx->uid lookup from C19; '
+            'memory sharing of views not decided',
+            'contract-based deductive verification: symbolic execution with ghost block descriptions + NIA lemmas (z3)'),
 }
 
 ALL = ['C%02d' % i for i in range(1, 21)]
